@@ -85,6 +85,7 @@ def false_(): return ("set", [])
 def pvar(x): return ("pvar", x)
 def pwild(): return ("pwild",)
 def pexpr(e): return ("pexpr", e)
+def pexprs(es): return ("pexprs", list(es))      # (e1, e2, ..): any of the alternatives
 def parr(items): return ("parr", list(items))
 def ptup(attrs): return ("ptup", list(attrs))
 def pdict(entries): return ("pdict", list(entries))
@@ -207,6 +208,8 @@ def psrc(p):
         if e[0] == "str" and e[2] == 0:
             return src(e)
         return "(" + src(e) + ")"
+    if k == "pexprs":
+        return "(" + ", ".join(src(e) for e in p[1]) + ")"
     if k == "parr":
         return "[" + ", ".join(isrc(i) for i in p[1]) + "]"
     if k == "ptup":
@@ -341,6 +344,8 @@ def pcoq(p):
         return "PWild"
     if k == "pexpr":
         return "(PExpr %s)" % coq(p[1])
+    if k == "pexprs":
+        return "(PExprs [" + "; ".join(coq(e) for e in p[1]) + "])"
     if k == "parr":
         return "(PArr [" + "; ".join(icoq(i) for i in p[1]) + "])"
     if k == "ptup":
